@@ -19,7 +19,7 @@ CHECKS = {
         "min_classes": {"quick": {"C04/mutated": 1000, "C04/truncated": 1000, "C04/well-formed-boundary": 3000},
                         "thorough": {"C04/mutated": 10000}},
         "runs": [
-            {"name": "replay+rapid", "pkg": "./c04", "run": "TestReplay|TestMatchersNoPanicBoundedAlloc|TestHandlersNoPanicBoundedAlloc",
+            {"name": "replay+rapid", "pkg": "./c04", "run": "TestReplay|TestMatchersNoPanicBoundedAlloc|TestHandlersNoPanicBoundedAlloc|TestSeveralMatchersOneConnection",
              "rapid_checks": {"quick": 1500, "thorough": 60000}, "shards": {"quick": 1, "thorough": 16},
              "timeout": {"quick": 600, "thorough": 7200}, "oom_is_violation": True},
             {"name": "fuzz", "pkg": "./c04", "fuzz": "FuzzMatchers", "fuzztime": {"thorough": "600s"}, "tiers": ("thorough",)},
